@@ -58,6 +58,13 @@ func UtxoValidateOutsideValidityIntervalUtxo(
 	_ common.ProtocolParameters,
 ) error {
 	validityIntervalStart := tx.ValidityIntervalStart()
+	// invalid_hereafter is exclusive from Allegra on (0 means "not set")
+	if ttl := tx.TTL(); ttl != 0 && slot >= ttl {
+		return shelley.ExpiredUtxoError{
+			Ttl:  ttl,
+			Slot: slot,
+		}
+	}
 	if validityIntervalStart == 0 || slot >= validityIntervalStart {
 		return nil
 	}
